@@ -24,6 +24,7 @@ TRUSTED = ["T0 translator (keyword sets, quoting alternatives, option tuples, st
 ASSUMES = [
     "engine semantics (a single SELECT/EXPLAIN statement without side-effect functions leaves the database unchanged) are exercised, not proved",
     "the sqlite3 shell binary is not installed: dot-commands and shell-only SQL functions (writefile, edit, .shell) cannot be executed here (finding F16b is by documentation)",
+    "the shell's option grammar (which options take one or two values, -readonly opens mode=ro, -safe leaves DML on the main database enabled, an unknown option stops the run) is taken from shell.c / sqlite.org/cli.html and simulated with Python's sqlite3 (shell_reads, execute_cli)",
 ]
 CWD = "/tmp/probe"
 SQLITE_WRITE = ["PRAGMA", "ATTACH", "DETACH", "VACUUM", "REINDEX", "ANALYZE"]
@@ -114,7 +115,8 @@ def corr_sql(model, r, n):
     return acc.result()
 
 
-OPTS = ["-readonly", "-safe", "-init", "x.sql", "-cmd", "-header", "-csv", "-separator", "|", "-lookaside", "10", "-batch", "-unknown", "-A", "--help", "-help", "-version", "-json", "-newline", "-", "--"]
+OPTS = ["-readonly", "-safe", "-init", "x.sql", "-cmd", "-header", "-csv", "-separator", "|", "-lookaside", "10", "-batch", "-unknown", "-A", "--help", "-help", "-version", "-json", "-newline", "-", "--",
+        "-pagecache", "-mmap", "-heap", "-threadsafe", "-sorterref", "1", "-nullvalue", "-vfs", "-maxsize"]
 
 
 def gen_tokens(r):
@@ -228,6 +230,120 @@ def execute(args):
         shutil.rmtree(d, ignore_errors=True)
 
 
+# the sqlite3 shell's command line, as shell.c's main() reads it (the binary is not installed here: this reading is an
+# assumption, listed in ASSUMES): option words start with '-' ('--x' = '-x'); these take one value, those two; the first
+# other word is the database, the following ones are run as SQL; -cmd's value is run before them; an unknown option ends
+# the run before anything is executed
+SHELL_ONE = {"-separator", "-nullvalue", "-newline", "-cmd", "-init", "-heap", "-mmap", "-vfs", "-maxsize", "-nonce", "-threadsafe", "-sorterref"}
+SHELL_TWO = {"-lookaside", "-pagecache"}
+SHELL_ZERO = {"-readonly", "-safe", "-batch", "-bail", "-header", "-noheader", "-csv", "-json", "-list", "-line", "-column", "-html", "-quote", "-table", "-box", "-markdown", "-tabs", "-ascii", "-echo", "-stats", "-interactive",
+              "-nofollow", "-append", "-deserialize", "-memtrace", "-zip", "-multiplex"}
+
+
+def shell_reads(argv):
+    """(readonly?, safe?, init file?, [SQL texts in execution order]) or None when the shell stops at an unknown option / help"""
+    ro = safe = False
+    init = None
+    cmds, sqls = [], []
+    db = None
+    i = 0
+    while i < len(argv):
+        z = argv[i]
+        if not z.startswith("-"):
+            if db is None:
+                db = z
+            else:
+                sqls.append(z)
+            i += 1
+            continue
+        if z.startswith("--"):
+            z = z[1:]
+        if z in SHELL_ONE:
+            if i + 1 >= len(argv):
+                return None
+            if z == "-cmd":
+                cmds.append(argv[i + 1])
+            if z == "-init":
+                init = argv[i + 1]
+            i += 2
+        elif z in SHELL_TWO:
+            if i + 2 >= len(argv):
+                return None
+            i += 3
+        elif z in SHELL_ZERO:
+            ro = ro or z == "-readonly"
+            safe = safe or z == "-safe"
+            i += 1
+        else:
+            return None
+    if db is None:
+        return None
+    return ro, safe, init, cmds + sqls
+
+
+def execute_cli(argv):
+    """run the command line the way shell_reads says the shell would: state diff or None"""
+    rd = shell_reads(argv)
+    if rd is None:
+        return None
+    ro, _safe, init, texts = rd
+    if init is not None:
+        return ["<-init script: unknown content>"]
+    d = tempfile.mkdtemp(prefix="dippy-verif-sqlcli-")
+    try:
+        p = make_db(d)
+        before = state(d)
+        saved = os.getcwd()
+        os.chdir(d)
+        try:
+            con = sqlite3.connect("file:" + p + ("?mode=ro" if ro else ""), uri=True)
+            if ro:
+                # the shell opens with SQLITE_OPEN_READONLY and attached databases inherit the flags (no file is created, none
+                # is writable); Python's module always opens read-write+create and narrows the main file only: refuse ATTACH,
+                # which leaves the same state behind
+                con.set_authorizer(lambda action, *a: sqlite3.SQLITE_DENY if action == sqlite3.SQLITE_ATTACH else sqlite3.SQLITE_OK)
+            for a in texts:
+                try:
+                    con.executescript(a)
+                except (sqlite3.Error, sqlite3.Warning, ValueError):
+                    pass
+            try:
+                con.commit()
+            except sqlite3.Error:
+                pass
+            con.close()
+        finally:
+            os.chdir(saved)
+        after = state(d)
+        if before != after:
+            return [k for k in sorted(set(before) | set(after)) if before.get(k) != after.get(k)]
+        return None
+    finally:
+        shutil.rmtree(d, ignore_errors=True)
+
+
+VALUES = ["-readonly", "-safe", "1", "0", ",", "x", "-batch", "-init", "-cmd"]
+
+
+def gen_cli(r):
+    """option words (with values that look like options) + database + SQL arguments"""
+    argv = []
+    for _ in range(r.randint(1, 3)):
+        k = r.random()
+        if k < 0.3:
+            argv.append(r.pick(["-readonly", "-safe", "-batch", "-header", "-csv", "-bail", "--readonly"]))
+        elif k < 0.7:
+            argv += [r.pick(sorted(SHELL_ONE - {"-init"})), r.pick(VALUES)]
+        else:
+            argv += [r.pick(sorted(SHELL_TWO)), r.pick(VALUES), r.pick(VALUES)]
+    argv.append("main.db")
+    for _ in range(r.randint(1, 2)):
+        argv.append(gen_stmt(r, write=r.chance(0.7)))
+    if r.chance(0.15):
+        argv.insert(r.randint(0, len(argv)), r.pick(["-readonly", "-safe"]))
+    return argv
+
+
 def shell_quote(s):
     return "'" + s.replace("'", "'\"'\"'") + "'"
 
@@ -280,10 +396,47 @@ def search(ctx):
                     vios.append({"input": {"sql_args": args, "command": cmd, "cwd": CWD, "config": ""}, "observed": {"verdict": action, "is_readonly": ro, "changed": changed}, "required": which + ", but executing the text with SQLite %s changed: %s" % (sqlite3.sqlite_version, ", ".join(changed)), "oracle": "sqlite-state-diff"})
             elif len(samples) < 3 and any(";" in a or "'" in a for a in args):
                 samples.append({"sql_args": [a[:100] for a in args], "verdict": action, "state": "unchanged"})
-    return {"violations": vios, "evaluations": stats["evaluations"], "distinct_nontrivial": stats["executed"], "stats": dict(stats), "samples": samples, "oracle": "state diff of a scratch SQLite database (dump, schema_version, user_version, directory) after executing every text classified read-only"}
+    # (2) option words: the verdict on a whole sqlite3 command line against what the shell does with its options
+    r2 = rng("c16-cli")
+    cli_jobs = []
+    for _ in range(ctx.scale(1500, 30000) * (3 if ctx.broken else 1)):
+        argv = gen_cli(r2)
+        if any("\0" in a or has_surrogate(a) for a in argv):
+            continue
+        cmd = "sqlite3 " + " ".join(shell_quote(a) for a in argv)
+        try:
+            d = analyze(cmd, Config(), Path(CWD))
+        except Exception:  # noqa: BLE001
+            continue
+        stats["evaluations"] += 1
+        stats["cli_lines"] += 1
+        rd = shell_reads(argv)
+        stats["cli:" + ("stops" if rd is None else "readonly" if rd[0] else "safe" if rd[1] else "read-write") + ":" + d.action] += 1
+        if d.action == "allow":
+            cli_jobs.append((argv, cmd))
+    stats["cli_executed"] = len(cli_jobs)
+    with mp.get_context("fork").Pool(16) as pool:
+        results = pool.map(execute_cli, [j[0] for j in cli_jobs], chunksize=16)
+    nk = 0
+    for (argv, cmd), changed in zip(cli_jobs, results):
+        if changed:
+            rd = shell_reads(argv)
+            tag = "F16d" if rd and rd[1] and not rd[0] else None
+            v = {"input": {"argv": argv, "command": cmd, "cwd": CWD, "config": ""}, "finding_tag": tag, "observed": {"verdict": "allow", "shell_reads": {"readonly": rd[0], "safe": rd[1], "sql": rd[3]}, "changed": changed},
+                 "required": "analyze() = allow, but with these options the shell opens the database read-write and runs the SQL arguments, which changed: " + ", ".join(changed), "oracle": "sqlite-cli-options"}
+            if tag:
+                nk += 1
+                if nk <= 2:
+                    vios.append(v)
+            elif len(vios) < 8:
+                vios.append(v)
+    return {"violations": vios, "evaluations": stats["evaluations"], "distinct_nontrivial": stats["executed"] + stats["cli_executed"], "stats": dict(stats), "samples": samples, "oracle": "state diff of a scratch SQLite database (dump, schema_version, user_version, directory) after executing every text classified read-only"}
 
 
 def matches_finding(entry, v) -> bool:
+    m = entry.get("match") or {}
+    if m.get("finding_tag"):
+        return v.get("finding_tag") == m["finding_tag"]
     return False
 
 
